@@ -854,6 +854,36 @@ theorem C15_gmm_stop_rule_depends_on_units :
   · simp only [convStop, relChange, absv, decide_eq_true_eq]
     norm_num
 
+/-- **what stands between `GMMMachine.fit` and unit-independence is the stopping test alone** (D24): with
+*any* stopping test that does not see a common shift of its two arguments — e.g. the absolute change
+`|prev − cur| ≤ thr` — the whole fit (number of iterations included) is equivariant: same iteration count,
+transformed model.  The relative test of the code is not such a test
+(`C15_gmm_stop_rule_depends_on_units`). -/
+theorem C15_ml_fit_equivariant_of_shift_invariant_stop (a b : Fin D → ℝ) (ha : ∀ d, a d ≠ 0) (cfg cfg' : MlCfg (C+1) D ℝ)
+    (h1 : cfg'.updMeans = cfg.updMeans) (h2 : cfg'.updVars = cfg.updVars) (h3 : cfg'.updWeights = cfg.updWeights)
+    (h4 : cfg'.countThr = cfg.countThr) (h5 : ∀ c d, cfg'.varFloor c d = a d * a d * cfg.varFloor c d)
+    (hfl : ∀ c d, 0 < cfg.varFloor c d) (hthr : 0 < cfg.countThr) (p0 : Params (C+1) D ℝ) (hv0 : ∀ c d, 0 < p0.variances c d)
+    (xs : List (Fin D → ℝ)) (hne : xs ≠ []) (stop : ℝ → ℝ → Bool)
+    (hstop : ∀ K p c : ℝ, stop (p - K) (c - K) = stop p c) (fuel : ℕ) (c0 : ℝ) :
+    emLoop (gmmMlIter cfg' (xs.map (affX a b))) stop fuel 0 (c0 - logJac a) (affP a b p0)
+      = (affP a b (emLoop (gmmMlIter cfg xs) stop fuel 0 c0 p0).1, (emLoop (gmmMlIter cfg xs) stop fuel 0 c0 p0).2) := by
+  refine emLoop_sim_inv (gmmMlIter cfg xs) (gmmMlIter cfg' (xs.map (affX a b))) stop stop (affP a b) (fun c => c - logJac a)
+    (fun p => ∀ c d, 0 < p.variances c d) ?_ ?_ (fun p c => hstop (logJac a) p c) fuel 0 c0 p0 hv0
+  · intro p hv c d
+    simp only [gmmMlIter]
+    exact mlMStep_var_pos cfg p _ _ hfl hv c d
+  · intro p hv
+    apply Prod.ext
+    · simp only [gmmMlIter]
+      rw [C15_stats_equivariant a b ha p hv xs]
+      exact C15_ml_equivariant a b cfg cfg' p (eStep p xs) _ _ hthr h1 h2 h3 h4 h5
+    · exact C15_ml_criterion_shift a b ha cfg' p hv xs hne cfg
+
+/-- the absolute-change test is shift-invariant (so the theorem above applies to it) -/
+theorem C15_abs_stop_shift_invariant (thr K p c : ℝ) :
+    decide (absv ((p - K) - (c - K)) ≤ thr) = decide (absv (p - c) ≤ thr) := by
+  rw [C15_abs_change_unit_free]
+
 /-- **the k-means stopping test is unit-free**: a similarity with scale `s ≠ 0` multiplies every
 distortion by `s²` (`C15_kmeans_scale_shift`), and the relative change does not see it -/
 theorem C15_kmeans_stop_rule_unit_free (s : ℝ) (hs : s ≠ 0) (thr : Option ℝ) (prev cur : ℝ) :
